@@ -12,7 +12,9 @@ re-queued on clock grounds only on the `gt` ordering, and keep rows perform no
 write on the environment; PUB - clocks and payload are published before (or
 atomically with) the DONE status so REL-2 never compares a stale end clock;
 MERGE-DONE - entries read from disk enter the environment only through a
-store guarded by status == DONE.
+store guarded by status == DONE; TOPO - the master examines the tasks in a
+topological order of the SAME graph that supplies `deps` to the decision, so
+a DONE task is never kept on a dependency status the same pass resets.
 Not decided: sequences of runs beyond these per-run obligations; clock
 monotonicity (time.time() is trusted).
 '''
